@@ -166,6 +166,44 @@ def run(repo: Repo) -> Result:
             res.ob(f"lookahead-opener:{lm.param_of(o)}:{rs.condition}")
             if o not in la:
                 res.add("C10-LEAD", "liquid.lex.compile_liquid_rules", f"lookahead-missing:{lm.param_of(o)}:{rs.condition}", f"the text rule's look-ahead does not stop at {lm.param_of(o)}: text before it is not right-stripped and swallows the markup", lm.fn.file, lm.fn.line)
+        # ... and in every alternative of the look-ahead the opening delimiter is immediately
+        # followed by the `-?` group the text branch reads (regex syntax tree, linearised): a
+        # group that binds to only some of the delimiters leaves the others without left
+        # whitespace control.
+        seqs = lm.lookahead_sequences(c_alt)
+        for o in openers:
+            res.ob(f"lookahead-hyphen:{lm.param_of(o)}:{rs.condition}")
+            mine = [sq for sq in seqs if sq and sq[0] == ("lit", o)]
+            bad = [sq for sq in mine if not (len(sq) >= 2 and sq[1] == ("hyphen?", c_alt.lookahead_hyphen_group))]
+            if mine and bad:
+                res.add(
+                    "C10-LEAD",
+                    "liquid.lex.compile_liquid_rules",
+                    f"lookahead-hyphen-unbound:{lm.param_of(o)}:{rs.condition}",
+                    f"in the text rule's look-ahead ({rs.condition}) the opening delimiter {lm.param_of(o)} is not followed by the `-?` group '{c_alt.lookahead_hyphen_group}': a hyphen on that delimiter does not strip the whitespace before it",
+                    lm.fn.file,
+                    lm.fn.line,
+                )
+        # the end alternative must be the end of the *string*: `$` also matches before a final
+        # newline, which splits the last text into two tokens — the second ("\n") then meets the
+        # stale left-strip flag of the previous markup and is lost
+        res.ob(f"lookahead-end:{rs.condition}")
+        ends = [sq for sq in seqs if sq and sq[0][0] == "end"]
+        if not ends:
+            res.add("C10-LEAD", "liquid.lex.compile_liquid_rules", f"lookahead-no-end:{rs.condition}", f"the text rule's look-ahead ({rs.condition}) has no end-of-input alternative: trailing text is never emitted", lm.fn.file, lm.fn.line)
+        for sq in ends:
+            if sq[0][1] != "string":
+                res.add(
+                    "C10-LEAD",
+                    "liquid.lex.compile_liquid_rules",
+                    f"lookahead-end-anchor:{rs.condition}",
+                    f"the text rule's look-ahead ({rs.condition}) ends text at `$`, which also matches before a final newline: 'x -}}}}hello\\n' is lexed as 'hello' + '\\n' and the newline is stripped by the stale left-strip flag (use \\Z)",
+                    lm.fn.file,
+                    lm.fn.line,
+                )
+        stray = [sq for sq in seqs if sq and sq[0][0] == "lit" and sq[0][1] not in openers]
+        for sq in stray:
+            res.add("C10-LEAD", "liquid.lex.compile_liquid_rules", f"lookahead-stray:{rs.condition}", f"the text rule's look-ahead ({rs.condition}) has an alternative that starts with a literal that is not an opening delimiter", lm.fn.file, lm.fn.line)
     cbranch = [b for b in branches if b[0] == content_kind and not b[2]]
     if len(cbranch) != 1:
         raise AnchorMissing("_tokenize_template: content branch not found")
